@@ -132,6 +132,13 @@ class ModuleAstInfo:
                 scope
                 for scope in nodes_of_class(self.module_ast, SCOPE_CLASSES)
                 if scope_line_range(scope)[0] == lineno
+                # The first line of the code object of a decorated function or class is
+                # the line of its first decorator.
+                or min(
+                    (decorator.lineno for decorator in getattr(scope, "decorator_list", ())),
+                    default=None,
+                )
+                == lineno
             ),
             None,
         )
